@@ -41,6 +41,7 @@ class FnSpec:
         self.loops = []          # dict(sig, ord, inv=[(name,tags,lines)], decreases=[lines], ensures=[...])
         self.hints = []          # dict(where, anchor, ord, lines, optional)
         self.replaces = []       # dict(old, new, count)
+        self.closures = []       # (callee, signature template)
         self.module = None       # module path in generated file, informational
         self.trusted = False
         self.sigreplace = []
@@ -146,6 +147,12 @@ def parse_sidecar(path):
                 new, tail2 = qstr(tail)
                 toks = tail2.split()
                 cur.replaces.append(dict(old=old, new=new, count=int(toks[0]) if toks else 1, regex=True))
+            elif kw == 'closure':
+                # closure "<callee name>" "<closure signature, $v = the closure's parameter>": the single-expression closure passed
+                # as LAST argument of that call gets a Verus closure signature; its body text is kept whatever it is
+                callee, tail = qstr(rest)
+                sig_, _ = qstr(tail)
+                cur.closures.append((callee, sig_))
             elif kw == 'sigreplace':
                 old, tail = qstr(rest)
                 new, _ = qstr(tail)
@@ -384,6 +391,18 @@ def inject(spec, text, contract, warnings, vac=False):
         if n != r['count']:
             raise AnchorLost('%s: replace anchor %r found %d times, expected %d' % (fnm, r['old'], n, r['count']))
         body = re.sub(r['old'], lambda m_: r['new'], body, flags=re.S) if r.get('regex') else body.replace(r['old'], r['new'])
+    for callee, sigt in spec.closures:
+        hits = [m_ for m_ in re.finditer(r'\b%s\(' % re.escape(callee), body)]
+        if len(hits) != 1:
+            raise AnchorLost('%s: closure anchor: call of %s found %d times, expected 1' % (fnm, callee, len(hits)))
+        po = hits[0].end() - 1
+        pc = match_brace(body, po, '(', ')')
+        args = body[po + 1:pc - 1]
+        mc = re.search(r'\|\s*(\w+)\s*\|\s*(?!\{)', args)
+        if not mc:
+            raise AnchorLost('%s: closure anchor: no single-expression closure `|x| expr` in the arguments of %s' % (fnm, callee))
+        var, expr = mc.group(1), args[mc.end():].rstrip().rstrip(',').rstrip()
+        body = body[:po + 1] + args[:mc.start()] + sigt.replace('$v', var) + ' { ' + expr + ' }' + body[pc - 1:]
     blines = [(l, base) for l in body.split('\n')]
     # loops.  A loop's annotation is anchored by the text of its header + ordinal.  When a header's text has changed but the
     # function still has the same loops in the same order and of the same kind (label, loop/while/while let/for), the
